@@ -31,11 +31,16 @@ let () =
         List.iteri (fun i ptok ->
           if !bad = None then begin
             let p = parse_path (String.sub ptok 1 (String.length ptok - 1)) in
-            let a = step interp s (init c0) (OAdd (n_of_int 0, p)) in
-            let mo = (match tbl_get (n_of_int 0) a.tbl with
+            let render a = (match tbl_get (n_of_int 0) a.tbl with
               | [] -> "-#-"
               | (PBgp (_, b) as q) :: _ -> print_path q ^ "#" ^ String.concat ";" (List.map print_wattr (sess_wire s b))
               | q :: _ -> print_path q ^ "#?") in
+            let a1 = step interp s (init c0) (OAdd (n_of_int 0, p)) in
+            let drain = [[{ t_from = []; t_then = [AReject] }]] in
+            let m2 = (if p = PStatic None then "-#-" else
+              let b0 = step interp s (init drain) (OAdd (n_of_int 0, p)) in
+              render (step interp s b0 (OReplace (c0, [(n_of_int 0, [p])])))) in
+            let mo = render a1 ^ "#" ^ m2 in
             let io = (try List.nth obs i with _ -> "<missing>") in
             if mo <> io then bad := Some (i, mo, io)
           end) paths;
